@@ -225,7 +225,7 @@ class Executor(Engine, ExprMixin, StmtMixin, CallMixin):
 
     def apply_contract(self, st, c, f, args, kwargs, line):
         self.used_contracts.add(c.qual)
-        self.caller_vars_snapshot = dict(st.vars)      # the caller's locals at the call (for call-discipline clauses)
+        caller_vars_snapshot = dict(st.vars)      # the caller's locals at the call (for call-discipline clauses)
         env = self.callee_env(st, c, f, args, kwargs)
         if getattr(self.frame(), 'spec_mode', False) or any(getattr(fr, 'spec_mode', False) for fr in self.frames):
             # inside a specification: only pure (uninterpreted) callees make sense; no effects, no exceptions
@@ -292,7 +292,7 @@ class Executor(Engine, ExprMixin, StmtMixin, CallMixin):
                         'precondition of %s: %s' % (c.qual, r))
         if True:
             self.events.append(Event(st.guard, c.qual, dict(env), line,
-                                     {k: v for k, v in (self.caller_vars_snapshot or {}).items()}))
+                                     {k: v for k, v in caller_vars_snapshot.items()}))
         havocs = self.havoc(st, c, env, c.modifies)
         call_rec = {'qual': c.qual, 'line': line, 'guard': st.guard, 'havocs': havocs, 'result': None, 'raises': []}
         if c.trusted:
@@ -729,6 +729,8 @@ class Executor(Engine, ExprMixin, StmtMixin, CallMixin):
                 sp = parse_spec(spec['var_types'][tn])
                 self.assume(st, sp.assumption(st.vars[tn].t))     # declared element type (data invariant of the container)
                 st.vars[tn] = V(st.vars[tn].t, sp)
+        body_start.vars = dict(st.vars)      # the loop's `modifies` may name the loop target (e.g. field.attributes{})
+        body_rec['witness'] = self.loop_witness_terms(st, spec)
         self.fold_axioms(st, spec, iv, True)
         loop_id = object()
         fr.loop_stack.append(loop_id)
@@ -760,6 +762,20 @@ class Executor(Engine, ExprMixin, StmtMixin, CallMixin):
         for b in breaks:
             b.state.vars.setdefault(ivar, V(mkI(iv), parse_spec('int')))
         self.merge_exit_states(st, breaks)
+
+    def loop_witness_terms(self, st, spec):
+        """hints for the vacuity guard of a loop body (never assumptions): a region of the state space to look for a model in"""
+        c = self.cur_contract
+        out = []
+        for w in spec.get('witness', []):
+            env = dict(self.top_env)
+            env.update({k: v for k, v in st.vars.items() if v is not UNBOUND})
+            n_w = len(self.assumes)
+            wd, truth = self.eval_spec(st, w, c, env, self.top_pre)
+            out.extend(self.assumes[n_w:])
+            del self.assumes[n_w:]
+            out.append(And(wd, truth))
+        return out
 
     def loop_frame(self, st, breaks, spec, name, body_start, body_start_k):
         """an iteration may change only what the loop specification declares (`modifies`) - objects allocated during the
